@@ -71,7 +71,8 @@ def limitTriple (x : Tf K) (fr : JointFrame K) (k : Nat) : V3 K × V3 K × V3 K 
   let d1 := V3.dot p0 c1
   let a1 := normalize3 (V3.smul d0 c0 + V3.smul d1 c1)
   let a2n := normalize3 (V3.cross a1 p0)
-  let sg := signv (V3.dot p0 c2)
+  -- since fix f5f04c1 (defect D7): the sign carries the joint's handedness
+  let sg := signv (V3.dot p0 c2) * fr.parity
   (nth [p0, V3.smul sg (-a2n), c2] k, nth [p1, p0, lon] k, nth [lon, a1, c1] k)
 
 theorem any_motion_congr {axes axes' : List (Positional.Axis3 K)} (f : Motion K → Bool)
